@@ -6,6 +6,7 @@ from platform import python_version_tuple
 PY2 = python_version_tuple()[0] == "2"
 
 import re
+import codecs
 from functools import partial
 
 from ural.utils import quote
@@ -24,6 +25,14 @@ C1_CONTROL_RE = re.compile("[\x80-\x9f]")
 
 def _quote_match(match):
     return quote(match.group(0))
+
+
+def _keep_undecodable_escaped(error):
+    invalid = bytearray(error.object[error.start : error.end])
+    return ("".join("%%%02X" % byte for byte in invalid), error.end)
+
+
+codecs.register_error("ural-keep-escaped", _keep_undecodable_escaped)
 
 
 def _unquote_impl(string, only_printable=False, unsafe=None):
@@ -63,7 +72,7 @@ def _generate_unquoted_parts(string, only_printable=False, unsafe=None):
 
         m = ascii_match.group(1)
         c = _unquote_impl(m, only_printable=only_printable, unsafe=unsafe).decode(
-            "utf-8", "replace"
+            "utf-8", "ural-keep-escaped"
         )
 
         if only_printable:
